@@ -1082,7 +1082,7 @@ def with_macros(text, rng):
         else:
             out.append(line)
     # macro definitions go after the project header block
-    idx = next(i for i, l in enumerate(out) if l.strip() == "}")
+    idx = next(i for i, l in enumerate(out) if l.split("#")[0].strip() == "}")      # the closer may carry a trailing comment
     return "\n".join(out[:idx + 1] + macros + out[idx + 1:]) + "\n"
 
 
